@@ -66,7 +66,7 @@ def run(tier):
     V.sample({"lattice_trace": {"c": trs[0]["c"], "ev": trs[0]["ev"][:2]}})
     # real schedulers x Kaiser windows: stored window sums for two side-lobe levels analysed in one process
     from . import _result_common as R
-    R.run_traces(V, PID, tier, sd, lambda rnd: [("winsum", rnd.choice([60, 90]), rnd.choice([120, 200]), rnd.choice([60, 150]))], n_quick=8, n_thorough=40)
+    R.run_traces(V, PID, tier, sd, lambda rnd: [("refbin",), ("winsum", rnd.choice([60, 90]), rnd.choice([120, 200]), rnd.choice([60, 150]))], n_quick=8, n_thorough=40)
     V.assumptions += ["plans and windows are injected through the public scheduler=/win= callables; frequencies are the lattice angles (w = 0, pi/3, pi/2, 2pi/3, pi) so that the reference estimator is exact",
                       "Kaiser construction and real schedulers x real windows are bound by shims in the C05 thorough tier / C12"]
     return V.finish(rule="scenarios = terminal states of Analyzer.tla (plan templates x start-vector variants x frequency rotations x records x windows x orders x modes x bands) + seeded random single-bin requests; non-trivial = scenario without plan error")
